@@ -7,6 +7,7 @@ from vsa.facts import Facts, unwrap, show, walk, lit_value
 from vsa.front import AnalysisBroken
 from vsa.alg import Fold, S, F as Fn, equal, is_zero, guard_strs
 from vsa.cfg import CFG
+from vsa.cases import subst
 from rules import C08
 
 LEVEL = "other"
@@ -71,53 +72,83 @@ def run(rep, tier):
     f = f[0]
     rep.analysed(f)
 
-    def chain_of(name):
-        init = local_init(f, name)
-        return product_chain(init) if init is not None else None
-    ata = chain_of("ATA")
-    rep.check(ata == (1, ["A.transpose()", "A"]), "R6.1", "ATA", "ATA = A^T A", "csg_imc_solve forms the normal matrix as %s (required A.transpose() * A)" % (ata,), f.loc(), sample=True)
-    es = [d for d in f.decls.values() if d.get("name") == "es"]
-    rep.check(len(es) == 1 and es[0].get("init") is not None and re.search(r"\(ATA(,ComputeEigenvectors)?\)$", nows(show(es[0]["init"]))) is not None, "R6.1", "eigensolver", "SelfAdjointEigenSolver of ATA",
-              "the eigen-decomposition is not taken of ATA", f.loc())
-    fo = Fold(f, opaque_types=r"Eigen::|votca::tools::Table").run()
-    st = [e for e in fo.events if e["kind"] == "store" and e["target"].startswith("inv_diag[")]
-    ok, got = False, "store to inv_diag[i] not found"
-    if len(st) == 1:
-        v = st[0]["value"]
-        lam = [a for a in v.atoms(sp.Function) if str(a).startswith("at(eigenvalues(es)")]
-        got = "%s under %s" % (v, guard_strs(fo, st[0]["guards"])[-1:])
-        if len(lam) == 1:
-            reg = sp.cancel(1 / v - lam[0])
-            regv = Fold(f, opaque_types=r"Eigen::|votca::tools::Table").ev(local_init(f, "reg"), {}) if local_init(f, "reg") is not None else None
-            okv = not reg.has(lam[0]) and regv is not None and is_zero(reg - regv) and "regularization" in str(regv)
-            gc, pol, _ = st[0]["guards"][-1]
-            okg = isinstance(gc, tuple) and gc[0] == "<" and not pol and is_zero(gc[1] - sp.Abs(lam[0] + reg)) and (str(gc[2]) in ("etol", "1/1000000000000") or gc[2] == sp.Rational(1, 10**12))
-            ok = okv and okg
-    rep.check(ok, "R6.1", "inverse-spectrum", "inv_i = 1/(lambda_i + reg) unless |lambda_i + reg| < etol", "regularised inverse spectrum is %s" % got, f.loc(st[0]["node"] if st else None), sample=True)
-    inv0 = [d for d in f.decls.values() if d.get("name") == "inv_diag"]
-    rep.check(bool(inv0) and "Zero(" in show(inv0[0].get("init")), "R6.1", "inverse-spectrum-zero", "unstable directions keep 0 (pseudo-inverse)", "inv_diag is not zero-initialised", f.loc())
-    inv = chain_of("inverse")
-    rep.check(inv == (1, ["es.eigenvectors()", "inv_diag.asDiagonal()", "es.eigenvectors().transpose()"]), "R6.1", "inverse", "inverse = V diag V^T",
-              "the inverse is assembled as %s (required V * diag * V^T)" % (inv,), f.loc(), sample=True)
-    xs = [n for n in f.walk() if n.get("k") == "opcall" and n.get("op") == "=" and nows(show(n["args"][0])) == "x.y()"]
-    got = product_chain(xs[0]["args"][1]) if len(xs) == 1 else None
-    rep.check(got == (-1, ["inverse", "A.transpose()", "B.y()"]), "R6.1", "solution", "x.y = -inverse A^T B.y", "the solution is computed as %s (required -inverse * A^T * b)" % (got,), f.loc(), sample=True)
-    ra = local_init(f, "A")
-    rep.check(ra is not None and "imcio_read_matrix(gmcfile)" in nows(show(ra)), "R6.1", "input-A", "A read from the gmc file", "A is not read from the gmc file", f.loc())
+    from vsa.matfold import MatFold, nc_factors
+    from vsa.vecfold import K
+    from vsa.cases import decide, resolve_ite, ites
+    from sympy.core.function import AppliedUndef
+    fo = MatFold(f, record_calls=r"Table::(push_back|Save|Load)$").run()
+    sol = [e for e in fo.events if e["kind"] == "store" and e.get("target_node") is not None and unwrap(e["target_node"]).get("k") == "mcall"
+           and (unwrap(e["target_node"]).get("callee") or "").endswith("Table::y") and not unwrap(e["target_node"]).get("args")]
+    if len(sol) != 1 or isinstance(sol[0]["value"], (tuple, sp.Matrix)):
+        raise AnalysisBroken("CG_IMC_solve::Run: expected one assignment of the solution to <table>.y(), found %d" % len(sol))
+    coeff, fac = nc_factors(sol[0]["value"])
+    fname = lambda t: str(getattr(t, "func", ""))
+    shape_ok = coeff == -1 and len(fac) == 5 and [fname(t) for t in fac] == ["eigenvectors", "asDiagonal", "transpose", "transpose", "y"]
+    rep.check(shape_ok, "R6.1", "solution", "x.y = -(V diag V^T) A^T b", "the solution is computed as %s * %s (required -V diag(inv) V^T A^T b)" % (coeff, [fname(t) for t in fac]),
+              f.loc(sol[0]["node"]), sample=True)
+    if shape_ok:
+        V, Dg, Vt, At, bv = fac
+        Am = At.args[0]
+        E = V.args[0].args[0] if fname(V.args[0]) == "eigensolver" else None
+        rep.check(Vt.args[0] == V, "R6.1", "inverse", "inverse = V diag V^T", "the inverse is assembled with %s on the right of the diagonal, not the transpose of the eigenvectors on its left" % str(Vt)[:80],
+                  f.loc(sol[0]["node"]), sample=True)
+        rep.check(E is not None and sp.expand(E - At * Am) == 0, "R6.1", "ATA", "eigen-decomposition of A^T A",
+                  "the eigen-decomposition is taken of %s, not of A^T A with the A that multiplies b" % str(E)[:160], f.loc(), sample=True)
+        rep.check(E is not None and fname(V.args[0]) == "eigensolver", "R6.1", "eigensolver", "SelfAdjointEigenSolver of ATA", "the eigenvectors do not come from an eigen solver", f.loc())
+        rep.check(fname(Am) == "imcio_read_matrix" and '"gmcfile"' in str(Am), "R6.1", "input-A", "A read from the gmc file", "A is %s, not the matrix read from the gmc file" % str(Am)[:100], f.loc())
+        loads = [e for e in fo.events if e["kind"] == "call" and e["callee"].endswith("Table::Load")]
+        rep.check(len(loads) == 1 and loads[0]["obj"] == bv.args[0] and '"imcfile"' in str(loads[0]["args"][0]), "R6.1", "input-b", "b = y column of the table loaded from the imc file",
+                  "the right-hand side %s is not the y column of the table loaded from the imc file" % str(bv)[:80], f.loc())
+        D = fo.vecs.get(str(Dg.args[0]))
+        lam = Fn("at")(sp.Function("eigenvalues", commutative=False)(V.args[0]), K)
+        ok, got = False, "the diagonal is not an element-wise function of the eigenvalues"
+        if D is not None and D.e.has(lam):
+            conds = getattr(fo, "conds", {})
+            brs = [a_ for a_ in ites(D.e)]
+            nz = [x for a_ in brs for x in a_.args[1:] if x != 0 and not ites(x)]
+            reg = sp.cancel(1 / nz[0] - lam) if nz else None
+            got = "%s" % str(D.e)[:240]
+            if reg is not None and not reg.has(lam) and '"regularization"' in str(reg):
+                ok = True
+                Q = sp.Rational
+                for t, want in ((Q(0), 0), (Q(5, 10**13), 0), (Q(-5, 10**13), 0), (Q(1, 10**12), 10**12), (Q(2), Q(1, 2)), (Q(-2), Q(-1, 2))):
+                    sub = {lam: t - reg}
+                    v = resolve_ite(D.e, lambda cs: decide(subst(conds.get(cs), sub), sub) if cs in conds else None)
+                    v = sp.simplify(v.xreplace(sub)) if hasattr(v, "xreplace") else v
+                    if ites(v) or sp.simplify(v - want) != 0:
+                        ok = False
+                        got = "for lambda + reg = %s the inverse eigenvalue is %s (required %s); diag = %s" % (t, v, want, str(D.e)[:160])
+                        break
+        rep.check(ok, "R6.1", "inverse-spectrum", "inv_i = 1/(lambda_i + reg) unless |lambda_i + reg| < 1e-12 (then 0: pseudo-inverse)", "regularised inverse spectrum: " + got,
+                  f.loc(sol[0]["node"]), sample=True)
 
     # ---------------------------------------------------------------- R6.2 (shared)
     C08.check_imcio(AliasRep(rep, {"R8.5": "R6.2"}), F)
 
     # ---------------------------------------------------------------- R6.3
-    pb = [n for n in f.walk() if n.get("k") == "mcall" and (n.get("callee") or "").endswith("Table::push_back")]
-    ok = len(pb) == 1 and [nows(show(a)) for a in pb[0]["args"][:2]] == ["x.x((r-1))", "x.y((r-1))"]
-    if ok:
-        loops = [a for a in f.ancestors(pb[0]) if a.get("k") == "rangefor"]
-        ok = bool(loops) and nows(show(loops[0]["range"])) == "range.second" and loops[0]["var"]["name"] == "r"
-    rep.check(ok, "R6.3", "index-split", "table rows x(r-1), y(r-1) for r in the 1-based range", "csg_imc_solve splits the solution with %s" % ([show(a) for a in pb[0]["args"]] if pb else "?"), f.loc(), sample=True)
-    sv = [n for n in f.walk() if n.get("k") == "mcall" and (n.get("callee") or "").endswith("Table::Save") and "tbl" in show(n["obj"])]
-    rep.check(len(sv) == 1 and 'range.first' in show(sv[0]["args"][0]) and '".dpot.imc"' in show(sv[0]["args"][0]), "R6.3", "file-name", "saved as <name>.dpot.imc",
-              "result table saved as %s" % (show(sv[0]["args"][0]) if sv else "?"), f.loc())
+    pb = [e for e in fo.events if e["kind"] == "call" and e["callee"].endswith("Table::push_back")]
+    sv = [e for e in fo.events if e["kind"] == "call" and e["callee"].endswith("Table::Save")]
+    ok, why = False, "expected one push_back into the result table"
+    if len(pb) == 1 and len(pb[0]["args"]) >= 2:
+        a0, a1 = pb[0]["args"][0], pb[0]["args"][1]
+        tn = unwrap(sol[0]["target_node"])
+        tx = fo.final_env.get(unwrap(tn["obj"]).get("decl")) if tn.get("obj") is not None else None
+        ok = fname(a0) == "x" and fname(a1) == "y" and len(a0.args) == 2 and len(a1.args) == 2 and a0.args[0] == a1.args[0] == tx and a0.args[1] == a1.args[1]
+        why = "rows are built from %s, %s" % (str(a0)[:60], str(a1)[:60])
+        if ok:
+            idx = a0.args[1]
+            rsyms = [x for x in idx.free_symbols if re.match(r"^\w+@L\d+$", str(x))]
+            ok = len(rsyms) == 1 and sp.expand(idx - rsyms[0]) == -1
+            why = "solution rows are addressed with %s, not (1-based index) - 1" % idx
+            if ok:
+                loops = [a_ for a_ in f.ancestors(pb[0]["node"]) if a_.get("k") == "rangefor"]
+                rng = str(fo.range_values.get(loops[0]["var"]["decl"])) if loops else ""
+                outer = str(fo.range_values.get(loops[1]["var"]["decl"])) if len(loops) > 1 else ""
+                ok = ".second" in rng and "imcio_read_index" in outer and '"idxfile"' in outer
+                why = "the rows are not taken from the index ranges of the index file (inner range %s, outer %s)" % (rng[:60], outer[:80])
+    rep.check(ok, "R6.3", "index-split", "table rows x(r-1), y(r-1) for r in the 1-based range", "csg_imc_solve: " + why, f.loc(pb[0]["node"] if pb else None), sample=True)
+    oks = len(sv) == 1 and len(pb) == 1 and sv[0]["obj"] == pb[0]["obj"] and ".first" in str(sv[0]["args"][0]) and '".dpot.imc"' in str(sv[0]["args"][0])
+    rep.check(oks, "R6.3", "file-name", "saved as <name>.dpot.imc", "result table saved as %s" % (str(sv[0]["args"][0])[:80] if sv else "?"), f.loc())
 
     # ---------------------------------------------------------------- R6.4
     FM = C + "CGForceMatching::" if F.find(C + "CGForceMatching::EvalBonded") else "CGForceMatching::"
